@@ -8,7 +8,7 @@ import os
 import h5py
 import numpy as np
 
-from vm import gen, snap
+from vm import gen, snap, h5spec
 from vm.ctx import Violation
 from vm.checks import _hdf5
 
@@ -29,7 +29,7 @@ ASSUMPTIONS = [
     'them); duplicates are detected by decoding twice (assign / accumulate)',
 ]
 ANCHORS = ['Table.to_hdf5', 'general_formatter', 'vlen_list_of_str_formatter', '_convert']
-REQUIRED = ['list_category_under_other_name', 'group_metadata_decoded', 'reserved_category_user_formatter', 'ragged_metadata_cases', 'format_fs_writes', 'spec_decodes', 'empty_axis_tables', 'all_zero_tables',
+REQUIRED = ['collapsed_conversions_checked', 'list_category_under_other_name', 'group_metadata_decoded', 'reserved_category_user_formatter', 'ragged_metadata_cases', 'format_fs_writes', 'spec_decodes', 'empty_axis_tables', 'all_zero_tables',
             'cli_convert_files', 'layout_csc_seen', 'layout_unsorted_seen',
             'inplace_zeroed_tables']
 
@@ -40,7 +40,86 @@ def plan(tier):
             'timeout': 900 if tier == 'quick' else 3600}
 
 
+def collapsed_case(ctx, index, r):
+    """`biom convert --to-hdf5 --collapsed-samples / --collapsed-observations`:
+    a BIOM 1.0 table whose per-id metadata keys are the ids that were
+    collapsed into that id becomes a 2.1 file with a `collapsed_ids` list per
+    id — one entry per id, in id order, also for ids that collapsed
+    nothing."""
+    from click.testing import CliRunner
+    from biom.cli import cli
+    spec = gen.gen_spec(r, max_n=5, max_m=5, md_kinds=['none'],
+                        id_classes=['ascii', 'natsort', 'numeric', 'latin1'],
+                        value_classes=['count', 'frac'])
+    which = r.choice(['sample', 'observation', 'both'])
+    exp = {'observation': None, 'sample': None}
+    for axis in ('observation', 'sample'):
+        if which not in (axis, 'both'):
+            continue
+        md = []
+        for i in spec.ids(axis):
+            k = r.choice([0, 0, 1, 2, 3])
+            md.append({'%s.part%d' % (i, q): r.choice(['x', 1, None])
+                       for q in range(k)})
+        if not any(md):
+            md[-1] = {'only': 'x'}
+        if axis == 'observation':
+            spec.obs_md = md
+        else:
+            spec.samp_md = md
+        exp[axis] = [{'collapsed_ids': sorted(e)} for e in md]
+    t = gen.build(ctx.biom, spec, 'dense')
+    desc = {'table': spec.describe(), 'collapsed': which}
+    jp = ctx.path('col%d.json' % index)
+    hp = ctx.path('col%d.biom' % index)
+    try:
+        with open(jp, 'w', encoding='utf-8') as f:
+            f.write(t.to_json('vm'))
+        args = ['convert', '-i', jp, '-o', hp, '--to-hdf5']
+        if which in ('sample', 'both'):
+            args.append('--collapsed-samples')
+        if which in ('observation', 'both'):
+            args.append('--collapsed-observations')
+        rr = CliRunner().invoke(cli, args)
+        if rr.exit_code != 0:
+            # refusing such a table is not a malformed file
+            ctx.count('collapsed_conversions_refused')
+            ctx.case(desc, True)
+            return
+        dec = h5spec.decode(hp)
+        if dec['problems']:
+            raise Violation('C04/spec-violation', '%s; case=%r' %
+                            ('; '.join(dec['problems'][:4]), desc))
+        if dec['obs_ids'] != spec.obs_ids or dec['samp_ids'] != \
+                spec.samp_ids or not snap.bits_equal(dec['D_obs_view'],
+                                                     spec.D):
+            raise Violation('C04/ids', 'collapsed conversion: file has %r / '
+                            '%r; case=%r' % (dec['obs_ids'], dec['samp_ids'],
+                                             desc))
+        for axis, key in (('observation', 'obs_md'), ('sample', 'samp_md')):
+            if exp[axis] is None:
+                continue
+            got = [{k: v for k, v in e.items()} for e in dec[key]]
+            want = [{'collapsed_ids': e['collapsed_ids']} if
+                    e['collapsed_ids'] else {'collapsed_ids': []}
+                    for e in exp[axis]]
+            norm = [{'collapsed_ids': list(g.get('collapsed_ids') or [])}
+                    for g in got]
+            if len(got) != len(want) or norm != want:
+                raise Violation('C04/collapsed-ids', '%s: file gives %r, the '
+                                'ids that were collapsed are %r; case=%r' %
+                                (axis, got, want, desc))
+        ctx.count('collapsed_conversions_checked')
+    finally:
+        for p_ in (jp, hp):
+            if os.path.exists(p_):
+                os.remove(p_)
+    ctx.case(desc, True)
+
+
 def run_case(ctx, index):
+    if index % 23 == 9:
+        return collapsed_case(ctx, index, ctx.rng(index))
     if index % 29 == 11:
         return _hdf5.ragged_case(ctx, index, ctx.rng(index), 'C04')
     g = _hdf5.gen_case(ctx, index, empty_axis_ok=True)
